@@ -13,6 +13,7 @@ import numpy as np
 
 from ..core import describe, import_library
 from ..gen import engines as E
+from ..env import ENVIRONMENTS, excusable, hostile, observe
 from ..probe import Probe, Reach
 from ..ref import wiring as W
 from . import c08
@@ -91,7 +92,7 @@ class HistoryMonitor:
 
     def install(self, probe):
         fl = self.fl
-        probe.wrap(fl.Engine, "process", after=self._after_process)
+        probe.wrap(fl.Engine, "process", before=self._before_process, after=self._after_process)
         probe.wrap(fl.Engine, "restart", after=self._after_restart)
         probe.wrap(fl.Engine, "copy", after=self._after_copy)
 
@@ -105,11 +106,21 @@ class HistoryMonitor:
             edit(e)
         return e
 
+    def _before_process(self, args, kwargs):
+        return [np.array(v.value, copy=True) if isinstance(v.value, np.ndarray) else v.value for v in args[0].input_variables]
+
     def _after_process(self, args, kwargs, token, result, exc):
         ctx, engine = self.ctx, args[0]
         if exc is not None:
             ctx.hit("event:process raised")
             return
+        # the inputs of a step are read, not written: the arrays the variables were given hold what they held
+        for v, before in zip(engine.input_variables, token or []):
+            if isinstance(before, np.ndarray) and isinstance(v.value, np.ndarray) and before.dtype.kind in "fiub":
+                ctx.hit("compare:input values left as given")
+                if before.shape != v.value.shape or not W.same(np.asarray(v.value, dtype=float), np.asarray(before, dtype=float)):
+                    ctx.violation("a processing step changes the input values it was given", {"engine": describe(engine), "variable": v.name}, before, v.value)
+                    return
         if any(ov.lock_previous for ov in engine.output_variables):
             ctx.hit("out_of_domain:lock-previous is on")
             return
@@ -119,7 +130,7 @@ class HistoryMonitor:
             return
         ctx.evaluated()
         for a, b in zip(engine.input_variables, fresh.input_variables):
-            b.value = a.value
+            b.value = np.array(a.value, copy=True) if isinstance(a.value, np.ndarray) else a.value
         try:
             fresh.process()
         except Exception as ex:
@@ -275,6 +286,7 @@ def run(ctx):
     )
     ctx.assumptions += ["a fresh engine is rebuilt from the generator's spec (plus the edits applied so far to that lineage)", "bit-exact comparison", "Function formulas range over input variables only (a formula over an output's value is history dependent by design)"]
     funcs = {"Engine.process": fl.Engine.process, "Engine.restart": fl.Engine.restart, "Engine.copy": fl.Engine.copy, "RuleBlock.reload_rules": fl.RuleBlock.reload_rules, "Rule.deactivate": fl.Rule.deactivate, "Linear.update_reference": fl.Linear.update_reference, "Function.update_reference": fl.Function.update_reference}
+    ctx.excuse = lambda mechanism, observed, note: excusable(observed)
     with Reach(funcs) as reach, Probe() as probe:
         mon = HistoryMonitor(ctx, fl)
         mon.install(probe)
@@ -290,10 +302,11 @@ def run(ctx):
                 ctx.hit(f"inconclusive:generated engine does not build: {type(ex).__name__}")
                 continue
             mon.fresh = {id(engine): (factory, [])}
+            envname = ENVIRONMENTS[(i // 6) % len(ENVIRONMENTS)] if i % 6 == 2 else None
             keep = [engine]  # keep every engine alive so that ids are not reused
             ops = []
             for _ in range(nops):
-                op = rnd.choice(["inputs", "inputs", "refill", "process", "process", "process", "restart", "copy", "edit", "toggle", "unload-restart"])
+                op = rnd.choice(["inputs", "inputs", "refill", "process", "process", "process", "restart", "copy", "edit", "toggle", "unload-restart", "look", "unload-look"])
                 ops.append(op)
                 try:
                     if op == "inputs":
@@ -329,6 +342,23 @@ def run(ctx):
                                 ctx.hit("event:input arrays refilled in place")
                         engine.process()
                     elif op == "process":
+                        with hostile(fl, envname if rnd.random() < 0.5 else None, ctx):
+                            engine.process()
+                    elif op == "look":
+                        # the engine is looked at (printed, exported, asked whether it is ready, ...) between two steps
+                        observe(fl, engine, rnd, ctx, None)
+                        engine.process()
+                    elif op == "unload-look":
+                        # a rule is unloaded by hand (it then takes no part in processing, which is legal) and the engine is looked at
+                        blocks = [(bi, ri) for bi, rb in enumerate(engine.rule_blocks) for ri, r in enumerate(rb.rules) if r.is_loaded()]
+                        if blocks:
+                            bi, ri = rnd.choice(blocks)
+                            unload = lambda e, bi=bi, ri=ri: e.rule_blocks[bi].rules[ri].unload()  # noqa: E731
+                            factory_t, edits_t = mon.fresh[id(engine)]
+                            unload(engine)
+                            mon.fresh[id(engine)] = (factory_t, edits_t + [unload])
+                            ctx.hit("event:rule unloaded by hand, engine looked at, then processed")
+                        observe(fl, engine, rnd, ctx, None, only=["is_ready", rnd.choice(["str(engine)", "fll export", "is_loaded", "rule texts", "infer_type"])])
                         engine.process()
                     elif op == "restart":
                         remember_restart(mon, engine)
@@ -384,6 +414,44 @@ def run(ctx):
                 ctx.sample("sequence", {"fll": str(keep[0])[:1500], "operations": ops})
             mon.fresh = {}
         # directed: the two structural edits followed at once by what they are meant to meet (a copy; further processing)
+        # input terms whose membership function hands back its argument (a user's identity term, the formula `x`): processing
+        # reads the input arrays, twice gives the same
+        class Identity(fl.Term):
+            def membership(self, x):
+                return x if isinstance(x, np.ndarray) else fl.scalar(x)
+
+        for i, rnd in ctx.cases("terms that hand back their argument", ctx.scale(40, 1000)):
+            def make(i=i):
+                e = fl.Engine("alias", load=False)
+                t = Identity("same") if i % 2 else fl.Function("same", "x")
+                e.input_variables = [fl.InputVariable("a", minimum=0.0, maximum=1.0, terms=[t, fl.Ramp("up", 0.0, 1.0)])]
+                e.output_variables = [fl.OutputVariable("o", minimum=0.0, maximum=10.0, defuzzifier=fl.WeightedSum(), terms=[fl.Constant("k", 4.0), fl.Constant("m", 8.0)])]
+                w = [0.5, 0.25, 0.75][i % 3]
+                rules = [fl.Rule.create(f"if a is same then o is k with {w}"), fl.Rule.create("if a is up then o is m with 0.5")]
+                e.rule_blocks = [fl.RuleBlock("rb", conjunction=fl.Minimum(), disjunction=fl.Maximum(), implication=fl.Minimum(), activation=fl.General(), rules=rules)]
+                if isinstance(t, fl.Function):
+                    t.update_reference(e)
+                    t.load()
+                e.rule_blocks[0].load_rules(e)
+                return e
+
+            engine = make()
+            mon.fresh = {id(engine): (make, [])}
+            arr = np.array([rnd.random() for _ in range(rnd.choice([1, 3, 4]))])
+            engine.input_variables[0].value = arr
+            try:
+                engine.process()
+                engine.process()
+                dup = engine.copy()
+                mon.fresh[id(dup)] = (make, [])
+                dup.process()
+                engine.input_variables[0].value = np.array(0.5)
+                engine.process()
+                engine.process()
+            except Exception as ex:
+                ctx.hit(f"event:operation raised {type(ex).__name__}")
+            ctx.hit("workload:input term that hands back its argument")
+            mon.fresh = {}
         for i, rnd in ctx.cases("structural edits", ctx.scale(80, 4000)):
             spec = E.gen_engine(rnd, activations=("General",), d=3, kinds=("ts", "tsukamoto", "integral"), resolutions=[5, 10], free_weights=True, flags=False, locks=False, allow_output_antecedent=False)
             factory = lambda spec=spec: E.build(fl, spec)  # noqa: E731
@@ -425,5 +493,6 @@ def run(ctx):
             mon.fresh = {}
         probe.report(ctx)
         reach.report(ctx)
+    ctx.require("workload:input term that hands back its argument", "compare:input values left as given", "event:rule unloaded by hand, engine looked at, then processed", "event:observer between steps", *[f"environment:{e}" for e in ENVIRONMENTS])
     ctx.require("edit:term object replaced", "edit:output terms replaced by the other family and restart")
     ctx.require("hook:Engine.process", "hook:Engine.restart", "hook:Engine.copy", "compare:process vs fresh engine", "compare:rule state vs fresh engine", "event:rule unloaded before restart", "compare:restart", "compare:copy", "event:copy of an engine holding arrays of more than 8192 values", "compare:edit isolation", "graph:objects walked", "event:input arrays refilled in place", "event:toggle and restore", "input type:int array", "input type:bool array", "input type:python int", "input type:list")
